@@ -8,6 +8,7 @@
 #include "private_access.h"
 #include <unistd.h>
 #include <sys/wait.h>
+#include <sys/resource.h>
 #include "momo/HashMultiMap.h"
 #include "momo/Array.h"
 #include "momo/SegmentedArray.h"
@@ -38,8 +39,9 @@ template<class F> static Out attempt(F f)
 }
 static std::string verdict(char expect, Out o, bool unchanged, const std::string& tag)
 {
-	if (o == OTHER) return "BAD " + tag + " threw an exception other than std::invalid_argument";
+	if (o == OTHER && expect != 'X') return "BAD " + tag + " threw an exception other than std::invalid_argument";
 	if (o == REJ && !unchanged) return "BAD " + tag + " was rejected but the container changed";
+	if (expect == 'X') return (o != ACC && unchanged) ? "ok " + tag + " rej=1" : "BAD " + tag + (o == ACC ? " was accepted" : " changed the container");
 	if (expect == 'R' && o == ACC) return "BAD " + tag + " was accepted although the handle / index is invalid";
 	if (expect == 'A' && o == REJ) return "BAD " + tag + " was rejected although nothing invalidated the handle";
 	return "ok " + tag + " rej=" + (o == REJ ? "1" : "0");
@@ -183,6 +185,10 @@ template<class A> static std::string runArr(const char* kind, int n, int mut, in
 	case 22: uname = "Insert(SIZE_MAX)"; expect = 'R'; o = attempt([&] { a.Insert(std::numeric_limits<size_t>::max(), 5); }); break;
 	case 23: uname = "a[SIZE_MAX]"; expect = 'R'; o = attempt([&] { volatile int x = a[std::numeric_limits<size_t>::max()]; (void)x; }); break;
 	case 24: uname = "RemoveBack(SIZE_MAX)"; expect = 'R'; o = attempt([&] { a.RemoveBack(std::numeric_limits<size_t>::max()); }); break;
+	// Insert(index, count, item) with a count that overflows size + count: any exception, nothing touched (fix c5d1be1)
+	case 25: uname = "Insert(0,SIZE_MAX,item)"; expect = cnt > 0 ? 'X' : '?'; if (cnt == 0) { o = REJ; break; } o = attempt([&] { a.Insert(0, std::numeric_limits<size_t>::max(), 5); }); break;
+	case 26: uname = "Insert(count,SIZE_MAX-count+1,item)"; expect = cnt > 0 ? 'X' : '?'; if (cnt == 0) { o = REJ; break; } o = attempt([&] { a.Insert(cnt, std::numeric_limits<size_t>::max() - cnt + 1, 5); }); break;
+	case 27: uname = "Insert(count+1,SIZE_MAX,item)"; expect = cnt > 0 ? 'X' : '?'; if (cnt == 0) { o = REJ; break; } o = attempt([&] { a.Insert(cnt + 1, std::numeric_limits<size_t>::max(), 5); }); break;
 	default: return "BAD unknown use";
 	}
 	std::vector<int> now; for (size_t i = 0; i < a.GetCount(); ++i) now.push_back(a[i]);
@@ -297,6 +303,11 @@ int main()
 		pid_t pid = fork();
 		if (pid == 0)
 		{
+			// a runaway case (e.g. a mutant that loops or reserves without bound) must not take the machine down
+#if !defined(__SANITIZE_ADDRESS__)
+			struct rlimit rl; rl.rlim_cur = rl.rlim_max = rlim_t(2) << 30; setrlimit(RLIMIT_AS, &rl);
+#endif
+			alarm(30);
 			close(fd[0]);
 			std::string res = dispatch(line);
 			if (write(fd[1], res.data(), res.size()) < 0) _exit(4);
